@@ -97,7 +97,9 @@ structure Mon where
   s : St
   hist : List Step := []          -- newest first
   mark : Nat := 0                 -- length of `s.log` at the last synchronisation
-  seen : List String := []        -- calls of the real core since then
+  seen : List String := []        -- SUBSCRIBE/RECONCILE calls of the real core since then
+  kills : List (Nat × Bool) := [] -- its KILL calls since then: task, and whether the master held the task terminal already
+  window : List Nat := []         -- tasks that were in the model's roster at some point since then
   expAns : List Upd := []         -- reconciliation answers the model's master gave, not yet seen in the trace
   terminating : Bool := false
   refused : List Nat := []        -- environments whose DestroyEnvironment request the core refused
@@ -105,7 +107,9 @@ structure Mon where
 
 def Mon.fail (m : Mon) (why : String) : Mon := if m.err.isSome then m else { m with err := some why }
 
-def Mon.step (m : Mon) (x : Step) : Mon := { m with s := Reconcile.step codeCfg W m.s x, hist := x :: m.hist }
+def Mon.step (m : Mon) (x : Step) : Mon :=
+  let s' := Reconcile.step codeCfg W m.s x
+  { m with s := s', hist := x :: m.hist, window := (s'.roster.map (·.id) ++ m.window).eraseDups }
 
 /-- read and handle everything that is on the stream behind an already-read SUBSCRIBED -/
 def Mon.drain (m : Mon) : Nat → Mon
@@ -122,13 +126,22 @@ def fidStr : Option Nat → String
   | none => "-"
   | some f => s!"f{f}"
 
-/-- what the model's core did since the mark, as comparable strings (term kills are compared leniently) -/
+/-- SUBSCRIBE and RECONCILE calls the model's core made since the mark, as comparable strings -/
 def predicted (m : Mon) : List String :=
   ((m.s.log.take (m.s.log.length - m.mark)).filterMap fun
     | .subscribe l c => some s!"sub {l} {fidStr c}"
     | .reconcile l => some s!"recon {l}"
-    | .kill _ t (.update _) _ => some s!"kill {t}"
-    | .kill _ t .release _ => some s!"kill {t}"
+    | _ => none)
+
+/-- KILLs the model's core made since the mark because of a status update (task, still alive at the master now) -/
+def predictedUpdateKills (m : Mon) : List Nat :=
+  ((m.s.log.take (m.s.log.length - m.mark)).filterMap fun
+    | .kill _ t (.update _) _ => some t
+    | _ => none)
+
+def predictedKills (m : Mon) : List Nat :=
+  ((m.s.log.take (m.s.log.length - m.mark)).filterMap fun
+    | .kill _ t _ _ => some t
     | _ => none)
 
 def sortS (xs : List String) : List String := (xs.toArray.qsort (· < ·)).toList
@@ -143,17 +156,30 @@ def subMultiset : List String → List String → Bool
     | some ys' => subMultiset xs ys'
     | none => false
 
-/-- strict: the real core made exactly the calls the model's core made; else a prefix-closed subset (the core was killed) -/
+/-- Synchronisation at a quiet point (strict) or when the stream / the process goes away (not strict: calls may
+    be lost). SUBSCRIBE and RECONCILE calls must be exactly the model's. KILL calls:
+    * every KILL the model's core makes because of a status update must have been made by the real core
+      (strict only) — that is how orphans die;
+    * a KILL of the real core must be one the model's core makes too, or hit a task the master already held
+      terminal (a no-op), or hit a task that left the roster since the last synchronisation (an environment
+      torn down on request, or given up by the core itself: whether such a task is still ACTIVE, hence
+      KILLed rather than forgotten, is a race inside the core that this property does not depend on). -/
 def Mon.sync (m : Mon) (strict : Bool) (wher : String) : Mon :=
   let m := m.settle
-  -- a second KILL for a task that was KILLed already changes nothing at the master, and whether the core's own
-  -- clean-up of a failed environment still finds a task ACTIVE is a race inside the core: compare as sets
-  let p := sortS (predicted m).eraseDups
-  let o := sortS m.seen.eraseDups
+  let p := sortS (predicted m)
+  let o := sortS m.seen
   let ok := if strict then p == o else subMultiset o p
   let m := if ok then m else m.fail s!"{wher}: the core made the calls {o}, the model's core {p}"
+  let pk := predictedKills m
+  let obsK := m.kills.map (·.1)
+  let missing := if strict then (predictedUpdateKills m).filter (fun t => !obsK.contains t) else []
+  let m := if missing.isEmpty then m else m.fail s!"{wher}: no KILL for {missing}, which the model's core kills (the core's KILLs: {obsK})"
+  let extra := m.kills.filter fun (t, dead) =>
+    !dead && !pk.contains t && !(m.window.contains t && !inRoster m.s.roster t)
+  let m := if extra.isEmpty then m else m.fail s!"{wher}: the core KILLed {extra.map (·.1)}, the model's core only {pk}"
   let m := if strict && !m.expAns.isEmpty then m.fail s!"{wher}: the model's master answered the reconciliation with {m.expAns.map (·.1)} more" else m
-  { m with mark := m.s.log.length, seen := [], expAns := if strict then [] else m.expAns }
+  { m with mark := m.s.log.length, seen := [], kills := [], window := m.s.roster.map (·.id),
+           expAns := if strict then [] else m.expAns }
 
 def rosterRows (s : St) : List String :=
   sortS (s.roster.map fun r => s!"{r.id}:{r.locked}")
@@ -195,13 +221,15 @@ def Mon.onEv (m : Mon) (kv0 : Option Nat) : TEv → Mon
   | .kill t _ =>
     if m.terminating then
       if (m.s.tasks.any (·.id == t)) then m else m.fail s!"KILL of unknown task {t} during shutdown"
-    else { m with seen := s!"kill {t}" :: m.seen }
+    else
+      let dead := match m.s.tasks.find? (·.id == t) with | some r => r.state.terminal | none => false
+      { m with kills := (t, dead) :: m.kills }
   | .drop => (m.sync false "stream dropped").step .drop
   | .killcore => (m.sync false "core killed").step .coreKill
   | .term => { (m.sync true "SIGTERM") with terminating := true }
   | .exited =>
     let m := m.settle.step .coreTerm
-    { m with mark := m.s.log.length, seen := [], expAns := [], terminating := false }
+    { m with mark := m.s.log.length, seen := [], kills := [], window := [], expAns := [], terminating := false }
   | .teardown => m.fail "TEARDOWN call"
   | .destroy e => if m.terminating || m.refused.contains e then m else m.settle.step (.release e)
   | .destroyed _ _ => m
